@@ -60,6 +60,8 @@ def harness_obligations(hspec, ws=None):
     for n in hspec.get("also", []):
         if n not in names:
             names.append(n)
+    if hspec.get("unwind_obligation") and hspec["unwind_obligation"] not in names:
+        names.append(hspec["unwind_obligation"])
     return names
 
 
@@ -74,8 +76,26 @@ def weave_units(ws, unit_names):
             unit["gen"](ws)
         for dest, src in unit.get("files", []):
             ws.add_file(dest, os.path.join(vlib.VERIF, src))
+        groups = {}
         for e in unit.get("edits", []):
+            if e.probe_group:
+                groups.setdefault(e.probe_group, []).append(e)
+        skipped = {g for g, es in groups.items() if not all(ws.anchor_ok(e) for e in es)}
+        for e in unit.get("edits", []):
+            if e.probe_group in skipped:
+                continue
             ws.apply(e)
+        for g in skipped:
+            lost = [e.anchor.strip() for e in groups[g] if not ws.anchor_ok(e)]
+            ws.skipped_probe_groups[g] = lost
+            ws.weave_log.append({"action": "probe group skipped", "group": g, "lost_anchors": lost,
+                                 "why": "an anchor of this ghost-probe group is not found; the obligations guarded by it are reported undecided"})
+            # turn the flag off in the harness file(s) of this unit:  `const X: bool = true; //@FLAG <group>`
+            for dest, _src in unit.get("files", []):
+                txt = ws.read(dest)
+                new = re.sub(r"= true;(\s*//@FLAG %s\b)" % re.escape(g), r"= false;\1", txt)
+                if new != txt:
+                    ws.write(dest, new)
 
 
 def tier_includes(tier, htier):
@@ -117,6 +137,12 @@ def run_kani_group(prop, grp, tier, obligations, undecided, failures, checker_cm
             undecided.append({"obligation": f"{crate}:*", "reason": reason, "detail": tail})
         for h in hs:
             names = harness_obligations(h, ws)
+            if h.get("only"):
+                names = [n for n in names if re.match(h["only"], n)]
+            guarded = set()
+            for g in ws.skipped_probe_groups:
+                for u in grp["units"]:
+                    guarded |= set(registry.UNITS[u].get("probe_guards", {}).get(g, []))
             r = res.get(h["name"])
             comp = h.get("completeness", "complete")
             if r is None or r["status"] not in ("SUCCESSFUL", "FAILED"):
@@ -132,6 +158,11 @@ def run_kani_group(prop, grp, tier, obligations, undecided, failures, checker_cm
             covers_ok = r["covers"] is None or r["covers_sat"] == r["covers"]
             vio, und = [], []
             for d in failed_descs:
+                if h.get("unwind_obligation") and "unwinding assertion" in d:
+                    # for this harness the unwinding bound IS the contract (stated in the harness): a call
+                    # on a quiescent / budget-limited segment must leave the retry loop within the bound
+                    vio.append(h["unwind_obligation"])
+                    continue
                 (vio if vlib.classify_failed_check(d) == "violation" else und).append(d)
             if r["status"] == "SUCCESSFUL" and not covers_ok:
                 und.append(f"vacuity guard: only {r['covers_sat']} of {r['covers']} cover properties satisfied")
@@ -141,7 +172,11 @@ def run_kani_group(prop, grp, tier, obligations, undecided, failures, checker_cm
                     "solver_s": round(per, 3), "checks_in_harness": r["checks"], "completeness": comp}
             for n in names:
                 o = dict(base, name=n)
-                if n in vio:
+                if n in guarded:
+                    o["result"] = "undecided"
+                    o["reason"] = "ghost-probe anchor lost in the source (probe group skipped)"
+                    undecided.append({"obligation": n, "reason": o["reason"]})
+                elif n in vio:
                     o["result"] = "failed"
                 elif und:
                     o["result"] = "undecided"
@@ -149,6 +184,8 @@ def run_kani_group(prop, grp, tier, obligations, undecided, failures, checker_cm
                 else:
                     o["result"] = "discharged"
                 obligations.append(o)
+            if h.get("only"):
+                vio = [d for d in vio if not re.match(r"C\d\d\.", d) or re.match(h["only"], d)]
             unnamed = [d for d in vio if d not in names]
             if unnamed:
                 # built-in safety checks (overflow, panic, pointer) inside the code under contract
@@ -177,9 +214,13 @@ def run_kani_group(prop, grp, tier, obligations, undecided, failures, checker_cm
                 continue
             if any(g.get("playback") for g in failures if g.get("group") is grp):
                 continue   # one executable counterexample per group is enough
+            only_unwind = bool(f["harness"].get("unwind_obligation")) and set(f["new"]) <= {f["harness"]["unwind_obligation"]}
             pb = vlib.kani_playback(ws, crate, f["harness"]["name"], features=features,
                                     solver=grp.get("solver"), modpath=grp.get("modpath"),
-                                    run_native=f["harness"].get("replayable", True), c_lib=grp.get("c_lib"))
+                                    run_native=f["harness"].get("replayable", True) and not only_unwind, c_lib=grp.get("c_lib"))
+            if only_unwind:
+                pb["native_output"] = ("not executed natively: the failed obligation is the loop bound itself (the call does not leave the loop "
+                                       "within the stated number of iterations), a native run would not terminate")
             f["playback"] = pb
     finally:
         ws.cleanup()
